@@ -443,7 +443,7 @@ OUTSIDE += ["quick tier skips (thorough runs them): the variants internal_terms=
             "rotAAab / CCab_antisym declarations of get_transform_TR: their real trace vanishes identically (anti-Hermitian), so any declaration holds"]
 
 
-def cases(tier, seed):
+def _cases_own(tier, seed):
     q = tier == "quick"
     out = []
     labels = list(registry())
@@ -570,3 +570,23 @@ def _replay(rec):
                 scale = max(scale, np.abs(a).max() if np.size(a) else 0.0)
         return bool(worst > 1e-9 * scale), f"{w['label']} {mode}: |value(-k) - declared(value(k))| = {worst:.3e} at {what} (scale {scale:.3e}); E={E[0].tolist()}"
     raise ValueError(w["test"])
+
+
+def cases(tier, seed):
+    """own cases + the StaticCalculator cases of the C13 harness that assert that calculator results carry the formula's declared transforms
+    (a declaration is only as good as its way into the result object that symmetrisation reads)"""
+    out = _cases_own(tier, seed)
+    from props import c13
+    out += [Case("declared transforms reach the result: " + c.name, c.fn, c.kwargs, timeout=c.timeout) for c in c13.cases(tier, seed)
+            if c.name.startswith("sea nb=2 nk=2") and "fder=0" in c.name]
+    return out
+
+
+_replay_own = replay
+
+
+def replay(rec):
+    if rec.get("witness", {}).get("test") == "sea":
+        from props import c13
+        return c13.replay(rec)
+    return _replay_own(rec)
